@@ -269,7 +269,7 @@ class Interp:
         self.max_depth = max_depth
         self.max_paths = max_paths
         self.inline_filter = inline_filter or (lambda b: True)
-        self.converter_pred = converter_pred or default_converter_pred
+        self.converter_pred = converter_pred or (lambda b: default_converter_pred(b) and not extracted_dispatch_helper(world, b))
         self.hooks = hooks or {}
         self.max_steps = max_steps
         self.intercepted = 0
@@ -1639,6 +1639,37 @@ def node_of(v):
 
 def is_fn_trait_closure(target):
     return False
+
+
+_EXTRACTED = {}
+
+
+def extracted_dispatch_helper(w, b):
+    """a private function with exactly one call site that takes an *untyped* node and hands that same node on to converters: a piece of a dispatch
+    loop moved into a helper (`convert_markup_child(ctx, node, mixed)`), which is entered like the loop body it was, not summarised as a converter"""
+    key = (id(w), b.id)
+    if key in _EXTRACTED:
+        return _EXTRACTED[key]
+    res = False
+    try:
+        untyped = [i for i in range(1, b.arg_count + 1) if b.locals[i]['ty']['s'].startswith('&typst_syntax::SyntaxNode')]
+        if untyped and not b.j.get('is_pub') and b.def_kind in ('Fn', 'AssocFn'):
+            sites = 0
+            for cb in w.fn_bodies(w.core):
+                for _, t in cb.calls():
+                    if resolved_id(t) == b.id:
+                        sites += 1
+                for blk in cb.blocks:
+                    for a in (blk['term'].get('args') or []) if blk['term']['t'] == 'call' else []:
+                        if a.get('o') == 'const' and 'fn' in a and a['fn']['def']['id'] == b.id:
+                            sites += 2
+            # it dispatches: calls at least two different local converters
+            callees = {resolved_id(t) for _, t in b.calls() if resolved_id(t) in w.bodies and default_converter_pred(w.bodies[resolved_id(t)])}
+            res = sites == 1 and len(callees) >= 2
+    except Exception:
+        res = False
+    _EXTRACTED[key] = res
+    return res
 
 
 def default_converter_pred(b):
